@@ -7,6 +7,7 @@
 #include "hcommon.h"
 #include <fcntl.h>
 #include <math.h>
+#include <sys/stat.h>
 
 #ifdef YARA_VERIF
 extern size_t yr_verif_initial_arena_size;
@@ -25,6 +26,7 @@ typedef struct
   int use_loaded;      // scan with rules2
   char ns[256];
   int has_ns;
+  char* diskdir;
   HFILE files[MAXF];
   int nfiles;
   // callback script
@@ -282,6 +284,45 @@ static void do_cmd(HS* s, char* line)
     fprintf(o, "add errors=%d\n", e);
     s->errors += e;
     free(src);
+  }
+  else if (!strcmp(c, "diskdir"))
+  {
+    // a fresh directory on disk becomes the working directory of this case (files for the DEFAULT include callback)
+    static char dir[] = "/dev/shm/hscan-dir-XXXXXX";
+    if (mkdtemp(dir) != NULL && chdir(dir) == 0) { s->diskdir = strdup(dir); fprintf(o, "diskdir rc=0\n"); }
+    else fprintf(o, "diskdir rc=-1\n");
+  }
+  else if (!strcmp(c, "diskfile"))
+  {
+    // diskfile <relative path> <hex content>: creates the directories of the path, writes the file
+    char* name = tok(&p);
+    uint8_t* data = h_unhex(tok(&p), &len);
+    char tmp[4096];
+    strncpy(tmp, name, sizeof(tmp) - 1); tmp[sizeof(tmp) - 1] = 0;
+    for (char* q = tmp + 1; *q; q++) if (*q == '/') { *q = 0; mkdir(tmp, 0700); *q = '/'; }
+    FILE* f = fopen(name, "wb");
+    if (f != NULL) { fwrite(data, 1, len, f); fclose(f); }
+    fprintf(o, "diskfile rc=%d\n", f != NULL ? 0 : -1);
+    free(data);
+  }
+  else if (!strcmp(c, "addfile"))
+  {
+    // addfile <path>: yr_compiler_add_file under that file name (use after newcompiler2: default include callback)
+    char* name = tok(&p);
+    FILE* f = fopen(name, "r");
+    if (f == NULL) fprintf(o, "addfile open-failed\n");
+    else
+    {
+      int e = yr_compiler_add_file(s->compiler, f, s->has_ns ? s->ns : NULL, name);
+      fclose(f);
+      fprintf(o, "add errors=%d\n", e);
+      s->errors += e;
+    }
+  }
+  else if (!strcmp(c, "diskclean"))
+  {
+    if (s->diskdir != NULL) { char cmd[300]; if (chdir("/") == 0) { snprintf(cmd, sizeof(cmd), "rm -rf '%s'", s->diskdir); if (system(cmd)) {} } }
+    fprintf(o, "diskclean\n");
   }
   else if (!strcmp(c, "atomq"))
   {
